@@ -311,6 +311,20 @@ def boundary(w):
                    0x5555555555555555 & m, 0xAAAAAAAAAAAAAAAA & m})
 
 
+WIDE_WIDTHS = (54, 64, 65, 96, 128)     # wider than a double's 53-bit significand (a float detour is no longer exact)
+
+
+def wide_values(w, rng, n):
+    """encodings with MORE THAN 53 significant bits: top and bottom bits set"""
+    m = (1 << w) - 1
+    top, top2 = 1 << (w - 1), 1 << (w - 2)
+    vs = [top2 | 1, top | 1, top2 | 3, m, m - 1, top2 - 1, (top2 | 1) ^ m, 1, top | top2 | 1, 0x5555555555555555555555555555555555 & m | 1 | top2]
+    for _ in range(n):
+        vs.append((rng.randint(0, m) | 1 | (top2 if rng.chance(1, 2) else top)) & m)
+        vs.append(rng.randint(0, m))
+    return vs
+
+
 def param_families(tier, rng):
     """yields (block, params, mode) with mode 'exh' (all operand encodings) or ('rnd', n)"""
     q = tier == 'quick'
@@ -358,6 +372,16 @@ def param_families(tier, rng):
     # unsigned-labelled formats (the block reads every encoding as two's complement whatever the sign entry says)
     for fa, fb, fr in [((0, 1, 2), (0, 2, 1), (0, 3, 3)), ((0, 0, 3), (1, 1, 1), (0, 2, 2)), ((0, 2, 0), (0, 2, 0), (0, 4, 0))]:
         yield 'FixedPointMult', (sum(fa), sum(fb), sum(fr)) + fa + fb + fr, 'exh'
+    # --- wide formats (both tiers): total width 54, 64, 65, 96, 128, operands with the top and bottom bits set
+    for w in WIDE_WIDTHS:
+        for f in (w // 2, 0, w - 1) if not q else (w // 2, (w * 7) % (w - 1)):
+            fm = (1, w - 1 - f, f)
+            yield 'FixedPointAdd', (w, w, w) + fm + fm + fm, ('wide', 8 if q else 60)
+            yield 'FixedPointSub', (w, w, w) + fm + fm + fm, ('wide', 8 if q else 60)
+            yield 'FixedPointSign', (w, 1) + fm, ('wide', 8 if q else 60)
+            yield 'FixedPointComparator', (w, w, 1, 1, 1) + fm + fm, ('wide', 8 if q else 60)
+            yield 'FixedPointMult', (w, w, w) + fm + fm + fm, ('wide', 8 if q else 60)
+            yield 'FixedPointMult', (w, w, 2 * w) + fm + fm + (1, 2 * w - 1 - 2 * f, 2 * f), ('wide', 8 if q else 60)
     # --- sampled to 32 bits (thorough: 64)
     ns = 40 if q else 600
     nr = 40 if q else 300
@@ -391,6 +415,14 @@ def input_vectors(real, mode, rng):
     if mode == 'exh':
         return itertools.product(*[range(1 << w) for w in real.inw])
     n = mode[1]
+    if mode[0] == 'wide':
+        cols = [wide_values(w, rng, n) for w in real.inw]
+        if len(cols) == 1:
+            return [(v,) for v in cols[0]]
+        vs = list(itertools.product(cols[0][:10], cols[1][:10]))            # every pair of the structured values
+        vs += list(zip(cols[0][10:], cols[1][10:]))
+        vs += [(v, 1) for v in cols[0][:10]] + [(1, v) for v in cols[1][:10]]   # + one LSB (carry through > 53 bits)
+        return vs
     vs = []
     bs = [boundary(w) for w in real.inw]
     for combo in itertools.islice(itertools.product(*bs), 81):   # most negative, -1, max, 0, 1 ... in every combination
@@ -433,7 +465,7 @@ def run_blocks(res, tier, rng, batch):
         for j, x in enumerate(vecs):
             obs = real.run(x, use_clk=(j % 7 == 3))
             batch.add(blk, p, x, obs)
-        res.hist('width', f'{blk}:{min(64, (max(real.inw) + 7) // 8 * 8)}')
+        res.hist('width', f'{blk}:{min(128, (max(real.inw) + 7) // 8 * 8)}')
         if idx < 3 or idx % 500 == 0:
             res.sample(dict(block=blk, params=list(p), mode=str(mode), vectors=len(vecs)))
         # netlist-level tie
@@ -473,11 +505,19 @@ def run_helper(res, tier, rng):
         w = r.choice([8, 12, 16, 17, 24, 32])
         f = r.randint(0, w - 1)
         fmts.append(((1, w - 1 - f, f), ('rnd', 30 if q else 200)))
+    for w in WIDE_WIDTHS:                 # both tiers: wider than a double's significand
+        for f in ((w // 2, 0, w - 2) if not q else (w // 2, (w * 7) % (w - 2))):
+            fmts.append(((1, w - 1 - f, f), ('wide', 6 if q else 60)))
     lines, meta = [], []
     for n, (fm, mode) in enumerate(fmts):
         w = sum(fm)
         r = rng.fork(('hv', n))
-        if mode == 'exh':
+        res.hist('helper_width', min(128, (w + 7) // 8 * 8))
+        if mode[0] == 'wide':
+            ca, cb = wide_values(w, r, mode[1]), wide_values(w, r, mode[1])
+            vecs = list(itertools.product(ca[:10], cb[:10])) + list(zip(ca[10:], cb[10:])) + \
+                   [(v, 1) for v in ca[:10]] + [(1, v) for v in cb[:10]]
+        elif mode == 'exh':
             vecs = list(itertools.product(range(1 << w), repeat=2))
         else:
             vecs = list(itertools.islice(itertools.product(boundary(w), repeat=2), 49)) + \
